@@ -155,6 +155,32 @@ def r3_checked_decoders(ck, w):
         ck.record('C03.R3', f'{short(nid)}|{nid.split("::")[0]}:no-unwrap', not unwraps,
                   'decoder failure is returned as Err', f'{nid} unwraps a decoding result (panic instead of Err)', reach.loc(b))
 
+    # the decoder validates exactly the bytes it read: the buffer filled by read_exact is not written again before it is decoded
+    MUTATORS = {'as_mut', 'as_mut_slice', 'last_mut', 'first_mut', 'iter_mut', 'get_mut', 'reverse', 'fill', 'copy_from_slice', 'swap', 'split_at_mut',
+                'chunks_mut', 'rotate_left', 'rotate_right', 'sort', 'clone_from_slice'}
+    for nid in sorted(impls):
+        for f in w.fns_x_of(nid):
+            bufs = {}
+            for n in hirq.calls(f['body']):
+                if n.get('m') == 'read_exact' or (callee(n) or '').endswith('::read_exact'):
+                    for a in n.get('args', []):
+                        for x in walk(a):
+                            if x.get('k') == 'local':
+                                bufs[x['i']] = x['n']
+            for li, name in bufs.items():
+                writes = 0
+                for n in walk(f['body']):
+                    k = n.get('k')
+                    if k == 'ref' and n.get('mut') and any(x.get('k') == 'local' and x['i'] == li for x in walk(n['e'])):
+                        writes += 1
+                    elif k == 'mcall' and n.get('m') in MUTATORS and any(x.get('k') == 'local' and x['i'] == li for x in walk(n['recv'])):
+                        writes += 1
+                    elif k in ('assign', 'assignop') and any(x.get('k') == 'local' and x['i'] == li for x in walk(n['lhs'])):
+                        writes += 1
+                ck.record('C03.R3', f'{f["_xid"]}|{name}:read-once', writes == 1, 'the buffer is written by read_exact only',
+                          f'{f["_xid"]}: the buffer `{name}` filled by read_exact is written {writes} times: bytes are altered between reading and decoding, so '
+                          f'several byte strings decode to the same element (the transcript absorbs the re-encoding, not the bytes read)', hirq.fn_loc(f))
+
 
 # ---------------------------------------------------------------- R4
 CS = 'midnight_proofs::plonk::circuit::ConstraintSystem'
